@@ -1306,7 +1306,7 @@ Qed.
 Lemma settle_id : forall s, inv_stop s -> settle s = (s, []).
 Proof.
   intros s St. unfold settle. destruct (stopped s) eqn:E; [|reflexivity].
-  rewrite settle_from_id; [destruct s; reflexivity|]. intros i cn Hi Ho. cbn. apply (St E); assumption.
+  rewrite settle_from_id; [destruct s; reflexivity|]. intros i cn Hi Ho. cbn. exact (St E i cn Hi Ho).
 Qed.
 
 Lemma reach_app : forall caps base meth tr1 tr2,
@@ -1409,8 +1409,8 @@ Proof.
   - (* successful unsubscribe: the liveness channel of b is closed in that step *)
     apply orb_true_iff. right.
     unfold step, step_gen in Hb1, Hobs. cbn [step_core] in Hb1, Hobs.
-    destruct (nth_error (conns s) (s_conn b)) as [cn|] eqn:Hc; [|destruct Hobs].
-    destruct (c_open cn && negb (stopped s)); [|destruct Hobs].
+    destruct (nth_error (conns s) (s_conn b)) as [cn|] eqn:Hc; [|rewrite (settle_id s St) in Hobs; destruct Hobs].
+    destruct (c_open cn && negb (stopped s)); [|rewrite (settle_id s St) in Hobs; destruct Hobs].
     match type of Hb1 with context [settle ?x] => pose proof (settle_subs x) as [Es _]; destruct (settle x) as [s2 o2] end.
     cbn [fst snd] in *. rewrite Es in Hb1. cbn in Hb1. rewrite nth_error_map', Hb in Hb1. cbn in Hb1. inversion Hb1.
     unfold key_of. rewrite (proj2 (key_eqb_eq (s_conn b, s_id b) (s_conn b, s_id b)) eq_refl), Ha. reflexivity.
